@@ -172,6 +172,11 @@ type fidRef struct {
 	// in a tread or twrite request.
 	pendingXattr pendingXattr
 
+	// xattrSrc is set for fidRefs created by Txattrwalk: file is borrowed
+	// from xattrSrc, on which this fidRef holds a reference, and must not be
+	// closed by this fidRef.
+	xattrSrc *fidRef
+
 	// refs is an active refence count.
 	//
 	// The node above will be closed only when refs reaches zero.
@@ -224,6 +229,10 @@ func (f *fidRef) IncRef() {
 // DecRef should be called when you're finished with a fid.
 func (f *fidRef) DecRef() error {
 	if atomic.AddInt64(&f.refs, -1) == 0 {
+		if f.xattrSrc != nil {
+			// The file belongs to the fid this one was walked from.
+			return f.xattrSrc.DecRef()
+		}
 		var (
 			errs []error
 			err  = f.file.Close()
